@@ -30,3 +30,46 @@ pub open spec fn effective_index_value(pos: MappingAtomicType, neg: MappingAtomi
 pub open spec fn ip_in_val(m: MappingAtomicType) -> bool {
     match m.indexed_properties { Some(ip) => all_in_val(ip.key.all), None => true }
 }
+
+// ---- the per-KEY readers `get_value_exact` / `get_value_open` (mapping.rs:216-266)
+// T2 (assumed): `String: Borrow<str>` borrows the same characters in the same order - what vstd's specification of
+// `BTreeMap::get` by a borrowed key asks of the pair (String, str) and leaves open (vstd has it for Box<Q> only)
+#[verifier::external_body]
+pub proof fn axiom_string_borrow_str<V>(m: Map<String, V>, k: &str)
+    ensures vstd::std_specs::btree::borrowed_key_ordering_matches::<String, str>(),
+      vstd::std_specs::btree::contains_borrowed_key(m, k) == (exists|s: String| #[trigger] m.contains_key(s) && s@ == k@),
+      forall|s: String| #[trigger] m.contains_key(s) && s@ == k@ ==> vstd::std_specs::btree::maps_borrowed_key_to_value(m, k, m[s]),
+      forall|v: V| #[trigger] vstd::std_specs::btree::maps_borrowed_key_to_value(m, k, v) ==> (exists|s: String| #[trigger] m.contains_key(s) && s@ == k@ && m[s] == v),
+{}
+// R5 (contract-only): `is_finite_string_set` (nested loops over template-literal items, `iter().all(fn item)`) -
+// modelled as an uninterpreted function of the key type
+pub uninterp spec fn finite_string_set(t: SemType) -> bool;
+#[verifier::external_body]
+fn is_finite_string_set(ty: &Rc<SemType>) -> (r: bool)
+    ensures r == finite_string_set(**ty)
+{ unimplemented!() }
+// the string-literal type of the key `k`
+pub open spec fn key_lit(lit: StringLitOrFormat, k: Seq<char>) -> bool {
+    match lit {
+        StringLitOrFormat::Tpl(t) => t.0@.len() == 1 && (match t.0@[0] { TplLitTypeItem::StringConst(s) => s@ == k, _ => false }),
+        _ => false,
+    }
+}
+pub open spec fn key_type(t: SemType, k: Seq<char>) -> bool {
+    wf(t) && flat(t) && exists|lit: StringLitOrFormat| #[trigger] str_lit_type(t, lit) && key_lit(lit, k)
+}
+pub open spec fn declares(m: MappingAtomicType, k: Seq<char>) -> bool { exists|s: String| #[trigger] m.vs@.contains_key(s) && s@ == k }
+// what an atom says about the key `k`: the declared property's type; else, when the atom has an index signature whose
+// key type covers the literal type of `k` ({k} \ key - in this order - is empty), the signature's value type (as it is
+// for a finite key set, made optional otherwise); else the default `dflt` of the side that asks
+pub open spec fn value_at(m: MappingAtomicType, k: Seq<char>, defs: Defs, r: SemType, exact: bool) -> bool {
+    if declares(m, k) { exists|s: String| #[trigger] m.vs@.contains_key(s) && s@ == k && r == *m.vs@[s] }
+    else {
+        let dflt = if exact { only_tag(r, SubTypeTag::OptionalProp) } else { unknown_ty(r) };
+        match m.indexed_properties {
+            Some(ip) => exists|kt: SemType, d: SemType| key_type(kt, k) && #[trigger] diff_res(kt, *ip.key, d)
+                && (if sem_empty(d, defs) { if finite_string_set(*ip.key) { r == *ip.value } else { optional_of(*ip.value, r) } } else { dflt }),
+            None => dflt,
+        }
+    }
+}
